@@ -40,6 +40,16 @@ class Builder(Contract):
             out.append(('counts-returned-with-prior', bool(np.allclose(dense(Cout), C))))
         if self.name == 'mle':
             out.append(('counts-returned-equal-the-input-counts', bool(np.allclose(dense(Cout), C))))
+            # "prior counts are added before estimation", whether or not populations were asked for: the returned matrix solves the
+            # reversible-ML self-consistency equations (as in PrinzMLE below) of counts + prior, with T's own stationary vector
+            w, v = np.linalg.eig(Td.T)
+            p0 = np.real(v[:, int(np.argmax(np.real(w)))])
+            p0 = p0 / p0.sum()
+            X = p0[:, None] * Td
+            X = X / X.sum()
+            xr, cr = X.sum(axis=1), C.sum(axis=1)
+            lhs = X * (cr[:, None] / xr[:, None] + cr[None, :] / xr[None, :])
+            out.append(('estimate-of-counts-plus-prior', bool(np.allclose(lhs, C + C.T, rtol=1e-4, atol=1e-6 * C.sum()))))
         if self.name == 'transpose':
             S = C + C.T
             out.append(('symmetrised-then-normalised', bool(np.allclose(Td, S / S.sum(axis=1)[:, None], rtol=1e-12, atol=1e-15))))
